@@ -630,11 +630,223 @@ Fixpoint run_obs (t : htable) (W : world) (ops : list rop) : list (list Z) :=
       (pre ++ out_row r :: acted ++ child ++ lr) ++ run_obs t' W' rest
   end.
 
-(* allow_mutations, callback (None = no on_mutation), mutation_rate (64ths), initial genes, operations *)
-Definition case := (bool * option (list orule) * Z * list gene * list rop)%type.
+(* ---------------------------------------------------------------------- *)
+(* approvers that RAISE or CALL BACK, and the clock                         *)
+
+(* on_mutation is arbitrary user code.  Besides answering it may
+     - raise (an Exception or any other BaseException: KeyboardInterrupt from
+       a human-in-the-loop prompt, SystemExit, GeneratorExit ...): mutate has
+       no handler, the exception leaves mutate before anything was appended to
+       the log or written to the gene table, and the caller may handle it and
+       go on using the genome;
+     - call back into the genome that is consulting it (a re-entrant
+       mutate(n', v')) before it answers: that inner call is an ordinary call
+       of mutate -- it consults the callback itself (which, one level down,
+       only answers), is logged and applied on its own -- and the outer call
+       then goes on with the `original_gene` / `original_value` it read BEFORE
+       the callback ran.
+   What the approver does besides answering is a function of the proposed
+   change ([behaviour]); it is exercised for the calls a user makes (mutate:
+   reason "", rollback_mutation: reason "rollback"), one level deep. *)
+Inductive xaction :=
+| XNone                       (* just answers *)
+| XRaise (k : Z)              (* raises exception class number k *)
+| XCall (n : Z) (v : val).    (* calls mutate(n, v) on the consulting genome, then answers *)
+
+Definition behaviour := Z -> val -> val -> reason -> xaction.
+
+(* how a call of mutate / rollback_mutation ends *)
+Inductive xres :=
+| Ret (b : bool)              (* returned b *)
+| Raised (k : Z)              (* the approver's exception came out of the call *)
+| RetN (b nb : bool).         (* returned b; the approver's own mutate returned nb *)
+
+(* the entry of n when mutate(n, ..) gets as far as asking the callback *)
+Definition consulted (G : genome) (n : Z) : option entry :=
+  match lookup (tbl G) n with
+  | Some e => if allow G then None else match cb G with Some _ => Some e | None => None end
+  | None => None
+  end.
+
+Definition act_of (beh : behaviour) (G : genome) (n : Z) (v : val) (r : reason) : xaction :=
+  match consulted G n with
+  | Some e => match r with
+              | RUser | RRollback => beh n (value e) v r
+              | _ => XNone
+              end
+  | None => XNone
+  end.
+
+(* the part of mutate after the gate: e is the entry read before the callback
+   ran, G1 the genome as the callback left it *)
+Definition finish_mutate (G1 : genome) (e : entry) (ok : bool) (n : Z) (v : val) (r : reason) : genome :=
+  if ok then add_log (set_tbl G1 (put (tbl G1) (mkEntry (with_value (e_gene e) v) (e_level e))))
+                     (mkM n (value e) v r true)
+  else add_log G1 (mkM n (value e) v r false).
+
+Definition g_mutate_x (beh : behaviour) (G : genome) (n : Z) (v : val) (r : reason) : genome * xres :=
+  match act_of beh G n v r with
+  | XNone => let '(G', b) := g_mutate G n v r in (G', Ret b)
+  | XRaise k => (G, Raised k)
+  | XCall n' v' =>
+      match lookup (tbl G) n with
+      | None => (G, Ret false)
+      | Some e =>
+          let '(G1, nb) := g_mutate G n' v' RUser in
+          let ok := approved_by G n (value e) v r in
+          (finish_mutate G1 e ok n v r, RetN ok nb)
+      end
+  end.
+
+Definition g_rollback_x (beh : behaviour) (G : genome) (n : Z) : genome * xres :=
+  match last_approved (mlog G) n with
+  | Some m => g_mutate_x beh G n (m_orig m) RRollback
+  | None => (G, Ret false)
+  end.
+
+Definition g_step_x (beh : behaviour) (G : genome) (o : gop) : genome * xres :=
+  match o with
+  | OMutate n v => g_mutate_x beh G n v RUser
+  | ORollback n => g_rollback_x beh G n
+  | _ => let '(G', b) := g_step G o in (G', Ret b)
+  end.
+
+Definition g_run_x (beh : behaviour) (G : genome) (ops : list gop) : genome :=
+  fold_left (fun G o => fst (g_step_x beh G o)) ops G.
+
+Inductive xout :=
+| XO (o : out)
+| XRaised (k : Z)
+| XNested (b nb : bool).
+
+Definition gated (o : gop) : bool :=
+  match o with OMutate _ _ | ORollback _ => true | _ => false end.
+
+Definition xstep (beh : behaviour) (W : world) (io : op) : world * xout :=
+  let '(i, o) := io in
+  match nth_error W i with
+  | None => (W, XO RetBadTarget)
+  | Some G =>
+      if gated o then
+        let '(G', x) := g_step_x beh G o in
+        (set_nth W i G',
+         match x with Ret b => XO (RetBool b) | Raised k => XRaised k | RetN b nb => XNested b nb end)
+      else let '(W', r) := step W io in (W', XO r)
+  end.
+
+Definition xrun (beh : behaviour) (W : world) (ops : list op) : world :=
+  fold_left (fun W io => fst (xstep beh W io)) ops W.
+
+(* the scripted behaviours of the generated cases: the first rule that matches
+   the proposed change decides *)
+Definition arule := (orule * xaction)%type.
+Definition interp_beh (acts : list arule) : behaviour :=
+  fun n old v r =>
+    match find (fun a => rule_ok n old v r (fst a)) acts with
+    | Some a => snd a
+    | None => XNone
+    end.
+
+(* ---- the clock -----------------------------------------------------------
+   The module reads `datetime.now()` in Genome.__init__ (_created_at: once per
+   constructed genome, replicate's child included) and in set_expression
+   (modified_at, when the gene exists); the readings are stored and never
+   looked at again.  A clock is (step, last reading, script): a reading is the
+   next number of the script, and last + step once the script is exhausted
+   (step 0: the clock stands still; negative: it runs backwards). *)
+Definition clock := (Z * Z * list Z)%type.
+
+Definition tick (c : clock) : Z * clock :=
+  let '(s, last, l) := c in
+  match l with
+  | x :: r => (x, (s, x, r))
+  | [] => (last + s, (s, last + s, []))
+  end.
+
+Fixpoint take_reads (k : nat) (c : clock) : list Z * clock :=
+  match k with
+  | O => ([], c)
+  | S k' => let '(x, c1) := tick c in
+            let '(l, c2) := take_reads k' c1 in (x :: l, c2)
+  end.
+
+(* how often a call reads the clock *)
+Definition nreads (W : world) (io : op) : nat :=
+  let '(i, o) := io in
+  match nth_error W i with
+  | None => O
+  | Some G =>
+      match o with
+      | OSetExpr n _ | OSilence n | OActivate n =>
+          match lookup (tbl G) n with Some _ => 1%nat | None => O end
+      | OReplicate _ _ _ => 1%nat
+      | _ => O
+      end
+  end.
+
+(* the history under a clock: the world, the clock afterwards, and what each
+   call read *)
+Fixpoint trun (beh : behaviour) (W : world) (c : clock) (ops : list op) : world * clock * list (list Z) :=
+  match ops with
+  | [] => (W, c, [])
+  | io :: rest =>
+      let '(l, c1) := take_reads (nreads W io) c in
+      let '(W', c', rows) := trun beh (fst (xstep beh W io)) c1 rest in
+      (W', c', l :: rows)
+  end.
+
+(* two rows: the number of readings of the constructor and of every call, and
+   the readings themselves in order *)
+Definition clock_rows (beh : behaviour) (W : world) (c : clock) (ops : list op) : list (list Z) :=
+  let '(l0, c1) := take_reads 1 c in
+  let '(_, _, rows) := trun beh W c1 ops in
+  [map (fun l => Z.of_nat (length l)) (l0 :: rows); concat (l0 :: rows)].
+
+Definition xout_row (o : xout) : list Z :=
+  match o with
+  | XO r => out_row r
+  | XRaised k => [5; k]
+  | XNested b nb => [0; b2z b; b2z nb]
+  end.
+
+Fixpoint xrep_compact (beh : behaviour) (t : htable) (W : world) (i : nat) (o : gop) (k : nat)
+  : htable * world * list (list Z) :=
+  match k with
+  | O => (t, W, [])
+  | S k' =>
+      let '(W1, r) := xstep beh W (i, o) in
+      let '(t1, lr) := match nth_error W1 i with
+                       | Some G' => light_row t G'
+                       | None => (t, [])
+                       end in
+      let '(t2, W2, rows) := xrep_compact beh t1 W1 i o k' in
+      (t2, W2, xout_row r :: lr :: rows)
+  end.
+
+Fixpoint xrun_obs (beh : behaviour) (t : htable) (W : world) (ops : list rop) : list (list Z) :=
+  match ops with
+  | [] => flat_map (fun G => detail_rows G 0) W
+  | (_, O, _) :: rest => xrun_obs beh t W rest
+  | (i, S k, o) :: rest =>
+      let '(t0, W0, pre) := xrep_compact beh t W i o k in
+      let '(W', r) := xstep beh W0 (i, o) in
+      let before := match nth_error W0 i with Some G => length (mlog G) | None => O end in
+      let acted := match nth_error W' i with Some G' => detail_rows G' before | None => [] end in
+      let child := match r with
+                   | XO (RetChild j) => match nth_error W' j with Some C => detail_rows C 0 | None => [] end
+                   | _ => []
+                   end in
+      let '(t', lr) := light_rows t0 W' in
+      (pre ++ xout_row r :: acted ++ child ++ lr) ++ xrun_obs beh t' W' rest
+  end.
+
+(* allow_mutations, callback (None = no on_mutation), mutation_rate (64ths), initial genes, operations,
+   what the approver does besides answering, the clock *)
+Definition case := (bool * option (list orule) * Z * list gene * list rop * list arule * clock)%type.
 
 Definition run_case (c : case) : list (list Z) :=
-  let '(a, orc, rate, genes, ops) := c in
+  let '(a, orc, rate, genes, ops, acts, clk) := c in
+  let beh := interp_beh acts in
   let G0 := init_genome_r a (option_map interp_oracle orc) rate genes in
   let '(t, lr) := light_rows [] [G0] in
-  (detail_rows G0 0 ++ lr) ++ run_obs t [G0] ops.
+  (detail_rows G0 0 ++ lr) ++ xrun_obs beh t [G0] ops ++ clock_rows beh [G0] clk (expand ops).
